@@ -264,3 +264,18 @@ Theorem C19_stagger_oracle_holds_of_model :
     StaggerExec.corr (StaggerExec.model_case m nk ops) = true.
 Proof. intros m nk ops Hm Hall. split; [exact (JoinSpreadProofs.stagger_oracle_sound m nk ops Hm Hall)|exact (JoinSpreadProofs.stagger_corr_refl m nk ops)]. Qed.
 Print Assumptions C19_stagger_oracle_holds_of_model.
+
+(* "Activate returns nil and spawns nothing if an actor kind/id is already known to the cluster",
+   while a join is spreading: once an activation of a key has returned a PID, every later
+   activation of that key — by an old member or by the joiner, whatever it has heard so far, and
+   whoever it asks — returns nil.  For the joiner this rests on the asked member's own check
+   (repair D26; JoinSpreadProofs.joiner_duplicate_before_D26 is the witness without it). *)
+Theorem C19_join_that_spreads_no_second_activation :
+  forall (m : nat) (ops : list JoinSpread.op) (n1 n2 who1 who2 k sel1 sel2 h : nat),
+    n1 < n2 ->
+    nth_error ops n1 = Some (JoinSpread.Act who1 k sel1) ->
+    nth_error (snd (JoinSpread.run m JoinSpread.init ops)) n1 = Some (JoinSpread.RPid h) ->
+    nth_error ops n2 = Some (JoinSpread.Act who2 k sel2) ->
+    nth_error (snd (JoinSpread.run m JoinSpread.init ops)) n2 = Some JoinSpread.RNil.
+Proof. exact JoinSpreadProofs.join_spread_no_second_activation. Qed.
+Print Assumptions C19_join_that_spreads_no_second_activation.
